@@ -4,6 +4,7 @@ import (
 	"crypto/tls"
 	"fmt"
 	"net"
+	"strings"
 	"time"
 
 	"github.com/go-ldap/ldap/v3"
@@ -19,14 +20,14 @@ func init() {
 		ID: "C19", Level: "exploration", Primary: "cases", EvalCount: "binds",
 		Rule: "user sets are drawn from an 8-spec pool containing DNs that are prefixes of one another (cn=a, cn=ab, 'cn=a,dc=x'), a duplicate DN with a different password, a user without a password attribute, " +
 			"an empty first password, several password values, and a case variant; EXHAUSTIVE for all user sets of size <= 2 x 9 bind DNs (pool DNs, case variants, empty, bytes) x 5 passwords (incl. empty) x both " +
-			"AllowAnonymousBind settings, plus random larger sets, over plain, TLS and StartTLS-upgraded connections (raw client; go-ldap as a second client on a sample). " +
+			"AllowAnonymousBind settings, plus random larger sets, plus user sets reached through sequences of LDAP Add and Delete requests, over plain, TLS and StartTLS-upgraded connections (raw client; go-ldap as a second client on a sample). " +
 			"Oracle: result code == (pw==\"\" && anon) || exists user u with u.DN == dn and first password value == pw ? 0 : 49. Set* calls happen only between binds. " +
 			"distinct_nontrivial = distinct (user set, anon, dn, password) cases",
 		Assume: []string{"the directory is configured through SetUsers / SetAllowAnonymousBind between binds (sequential use)"},
 		Phases: func(tier string, seed int64) []Phase {
 			return []Phase{{Name: "binds-plain", Run: func(c *Ctx) { c19Run(c, "plain") }}, {Name: "binds-tls", Run: func(c *Ctx) { c19Run(c, "tls") }}, {Name: "binds-starttls", Run: func(c *Ctx) { c19Run(c, "starttls") }}}
 		},
-		MinObserved: []string{"binds", "binds_expected_success", "binds_expected_failure"},
+		MinObserved: []string{"binds", "binds_expected_success", "binds_expected_failure", "ldap_mutation_steps"},
 	})
 }
 
@@ -250,6 +251,70 @@ func c19Run(c *Ctx, transport string) {
 		}
 		if !check(users, r.Bool(), sig(idx)) {
 			return
+		}
+	}
+	// ---- user sets reached through LDAP Add / Delete requests (not only SetUsers): the predicate is evaluated on
+	// the model of the directory's current users after every step
+	for k := 0; k < c.N(15, 300); k++ {
+		var users []c19User
+		td.SetUsers()
+		td.SetAllowAnonymousBind(false)
+		var trace []string
+		for step := 0; step < 4+r.Intn(8); step++ {
+			i := r.Intn(5)
+			dn := fmt.Sprintf("cn=m%c,ou=people,dc=example,dc=org", 'a'+i)
+			idx := -1
+			for j, u := range users {
+				if u.DN == dn {
+					idx = j
+				}
+			}
+			id++
+			if idx < 0 {
+				pw := pick(r, []string{"pa", "pb", "other"})
+				cl.Send(sber.Message(id, sber.AddRequest([]byte(dn), []sber.Attr{{Type: []byte("password"), Vals: [][]byte{[]byte(pw)}}, {Type: []byte("cn"), Vals: [][]byte{[]byte("x")}}}), nil).Encode())
+				if m, err := cl.ReadMsg(patience); err != nil || m.Op.Tag != sber.AppAddResponse {
+					c.Inconclusive(fmt.Sprintf("ldap add: %v", err))
+					return
+				}
+				users = append(users, c19User{DN: dn, PWs: []string{pw}})
+				trace = append(trace, "add "+dn+" pw="+pw)
+			} else {
+				cl.Send(sber.Message(id, sber.DelRequest([]byte(dn)), nil).Encode())
+				if m, err := cl.ReadMsg(patience); err != nil || m.Op.Tag != sber.AppDelResponse {
+					c.Inconclusive(fmt.Sprintf("ldap delete: %v", err))
+					return
+				}
+				users = append(users[:idx:idx], users[idx+1:]...)
+				trace = append(trace, "delete "+dn)
+			}
+			c.Count("ldap_mutation_steps", 1)
+			for j := 0; j < 5; j++ {
+				bdn := fmt.Sprintf("cn=m%c,ou=people,dc=example,dc=org", 'a'+j)
+				for _, pw := range []string{"pa", "pb", "other", ""} {
+					want := int64(49)
+					if c19Pred(users, false, bdn, pw) {
+						want = 0
+						c.Count("binds_expected_success", 1)
+					} else {
+						c.Count("binds_expected_failure", 1)
+					}
+					got, err := bind(bdn, pw)
+					c.Count("binds", 1)
+					c.Distinct("cases", fmt.Sprintf("seq/%s|%q|%q", strings.Join(trace, ";"), bdn, pw))
+					if err != nil {
+						c.Violate("bind got no well-formed answer", err.Error(), map[string]any{"trace": trace})
+						return
+					}
+					if got != want {
+						key := "bind succeeded without the right credentials"
+						if want == 0 {
+							key = "bind with the right credentials was refused"
+						}
+						c.Violate(key, fmt.Sprintf("[%s] after %v: bind(%q,%q) -> %d, want %d", transport, trace, bdn, pw, got, want), map[string]any{"steps": trace, "users_now": users, "dn": bdn, "pw": pw})
+					}
+				}
+			}
 		}
 	}
 	c.Sample(map[string]any{"users": []c19User{c19Pool[0], c19Pool[3]}, "anon": false, "dn": "cn=a", "pw": "other", "expect": 0, "transport": transport})
